@@ -5,10 +5,10 @@ import TongoProofs.Lemmas.TlbSnakeCost
 /-! Property C08 — TL-B and TL decoders are total on untrusted input: value or error, never a panic, no allocation or
 time out of proportion to the input. Property theorems only; lemmas live in `TongoProofs/Lemmas`.
 
-`Tl.Cfg.fixed` / `fixed = true` is the repaired code (what the current source is compared with on every run);
-`Tl.Cfg.orig` / `fixed = false` is the code as found, kept so that each defect is a theorem with a witness. -/
+`TlD.Cfg.fixed` / `fixed = true` is the repaired code (what the current source is compared with on every run);
+`TlD.Cfg.orig` / `fixed = false` is the code as found, kept so that each defect is a theorem with a witness. -/
 namespace Tongo.C08
-open Tongo.Tl Tongo.Helpers
+open Tongo.TlD Tongo.Helpers
 
 /-! ## TL: generic decoder and generated UnmarshalTL -/
 
@@ -70,7 +70,7 @@ theorem tl_decode_orig_panics_on_pointer_field :
 count says without reading anything — up to 2³²−1 iterations for four bytes of input. No shipped TL type has
 zero-width vector elements (checked per descriptor on every run); recorded as a limit, not repaired. -/
 theorem tl_steps_zero_width_elements (b0 b1 b2 b3 : UInt8) :
-    2 * Tl.le [b0, b1, b2, b3] ≤ (run Cfg.fixed (.vec 0 (.struct .nil)) [b0, b1, b2, b3]).2.steps :=
+    2 * TlD.le [b0, b1, b2, b3] ≤ (run Cfg.fixed (.vec 0 (.struct .nil)) [b0, b1, b2, b3]).2.steps :=
   zero_width_steps b0 b1 b2 b3
 
 /-- non-vacuity: a shipped shape (liteServer.transactionId: mode, three optional fields) is well formed -/
@@ -82,13 +82,13 @@ example : (Ty.vec 72 (.struct (.cons none true .int4 (.cons (some 0) false .int2
 /-- `decodeLength`, `processQueryAnswer`, the tag/body split of every generated client method and
 `LiteapiRequestDecoder` never panic, whatever bytes arrive (the explicit `panic` in decodeLength is unreachable). -/
 theorem helpers_total (b : List UInt8) (known : Bool) (lookup : Nat → Option Ty) :
-    (Tl.decodeLength b).isPanic = false ∧ (Tl.processQueryAnswer b known).isPanic = false ∧
-    (Tl.respTag b).isPanic = false ∧ (Tl.liteapiRequestDecoder Cfg.fixed lookup b).isPanic = false :=
+    (TlD.decodeLength b).isPanic = false ∧ (TlD.processQueryAnswer b known).isPanic = false ∧
+    (TlD.respTag b).isPanic = false ∧ (TlD.liteapiRequestDecoder Cfg.fixed lookup b).isPanic = false :=
   ⟨decodeLength_np b, processQueryAnswer_np b known, respTag_np b, liteapiRequestDecoder_np lookup b⟩
 
 /-- `processQueryAnswer` hands out exactly the announced number of bytes, all taken from the payload -/
 theorem processQueryAnswer_length (p : List UInt8) (d : List UInt8)
-    (h : Tl.processQueryAnswer p true = .ok d) : d.length + 37 ≤ p.length :=
+    (h : TlD.processQueryAnswer p true = .ok d) : d.length + 37 ≤ p.length :=
   processQueryAnswer_len p d h
 
 /-- `VmStack.Unmarshal` (`s[i]` behind the `NumField() > len(s)` guard) and `decodeAccountDataFromProof`
